@@ -35,6 +35,20 @@ class _Probe:
         return r
 
 
+class _PProbe(_Probe):
+    """persistent probes additionally record which input was handed to which worker"""
+
+    def enqueue(self, *args, **kwargs):
+        truth('enqueue-attempt', wid=list(self.id), userid=self.userid, x=args[0] if args else None)
+        try:
+            r = super().enqueue(*args, **kwargs)
+        except BaseException as e:
+            truth('enqueue-failed', wid=list(self.id), userid=self.userid, x=args[0] if args else None, exc=type(e).__name__)
+            raise
+        truth('enqueued', wid=list(self.id), userid=self.userid, x=args[0] if args else None)
+        return r
+
+
 class PThreadWorker(_Probe, ThreadWorker):
     pass
 
@@ -47,15 +61,15 @@ class PRemoteWorker(_Probe, RemoteWorker):
     pass
 
 
-class PPersistentThreadWorker(_Probe, PersistentThreadWorker):
+class PPersistentThreadWorker(_PProbe, PersistentThreadWorker):
     pass
 
 
-class PPersistentProcessWorker(_Probe, PersistentProcessWorker):
+class PPersistentProcessWorker(_PProbe, PersistentProcessWorker):
     pass
 
 
-class PPersistentRemoteWorker(_Probe, PersistentRemoteWorker):
+class PPersistentRemoteWorker(_PProbe, PersistentRemoteWorker):
     pass
 
 
